@@ -22,6 +22,7 @@ VARIANTS = {
     'cov':     ('clang', ['-O1', '-fsanitize-coverage=trace-pc-guard,trace-loads,trace-stores', '-fno-builtin'], 'idn2', []),
     'covbb':   ('clang', ['-O1', '-fsanitize-coverage=trace-pc-guard', '-fno-builtin'], 'idn2', []),
     'tsan':    ('clang', ['-O1', '-g', '-fsanitize=thread'], 'idn2', []),
+    'msan':    ('clang', ['-O1', '-g', '-fsanitize=memory', '-fno-omit-frame-pointer'], 'idn2', []),
     'extra':   ('gcc',   ['-O2'], 'idn2', ['-DEAV_EXTRA']),
     'idn':     ('gcc',   ['-O2'], 'idn', []),
     'idnkit':  ('gcc',   ['-O2'], 'idnkit', []),
